@@ -6,6 +6,11 @@ VERIF = os.path.dirname(HERE)
 ALL = ['C%02d' % i for i in range(1, 20)]
 
 CHECKS = {
+ 'C01': dict(
+   technique='Lean 4 proof (refinement: parser o any conforming serialisation = message list; induction over frames, fragments and items) + differential correspondence + independent encoder oracle',
+   text='21 kernel-checked theorems about the core model, culminating in delivery: for every list of items a conforming server sends (Text/Binary messages in any fragmentation incl. empty fragments, Ping/Pong <= 125 bytes anywhere incl. between fragments, an optional final Close), every legal length form per frame (7-bit, 16-bit and 64-bit incl. non-minimal) and every payload size, the lazy feed loop returns normally and the message events appended to the trace are exactly the expected ones in completion order with byte-identical payloads (Text: its exact UTF-8 decoding), nothing dropped, duplicated, merged, split or reordered - and (delivery_any_segmentation) the same for every cut of the stream into reads. Supporting theorems: parse_one_frame for all three length forms, the consumer never touches the parser, the lazy loop equals a fold over the eager parser, reassembly of fragmented messages with interleaved control frames. Tied to the code by generated conforming streams (boundary sizes 0..65537, non-minimal encodings, fragmentations, control placement, segmentations) run on the real receive path and the model, expected events computed by an independent encoder.',
+   note='Hypothesis of delivery: the application does not call close()/abandon and no ping/close timeout is due during the stream (those are C08/C13/C15). The clause that a payload never changes after its event was yielded is about aliasing of the receive buffer, not expressible in a pure model: checked by the harness (buffer poisoned between reads, events re-read at the end). Trusted: Lean kernel, core model validated differentially, refcodec.py encoder.',
+   ref='6 C01'),
  'C02': dict(
    technique='Lean 4 proof (induction over the chunk-oriented parser loop: feedLoop (a++b) = feedLoop a then b) + differential correspondence + metamorphic real-vs-real oracle',
    text='Kernel-checked theorem that the model of Parser.feed\'s loop (bite = data[pos:pos+remaining], incremental UTF-8 validation threaded, buffer extended, grammar resumed when complete, whole lazy pipeline incl. the application\'s reaction run after every parser output) computes the same final system state - events, application reactions, bytes written, errors, decision to stop - for every two segmentations of the same bytes, from every state (frames phase). The model is tied to the code by running real lomond and the model on the same streams under whole / bytewise / random / ALL 2^(n-1) cut sets, and the real code is compared with itself across segmentations (model-free).',
